@@ -576,7 +576,22 @@ class Emitter:
             if (q, rd['id']) not in self.globals_needed: self.globals_needed.append((q, rd['id']))
             return cident(q)
         if rd['id'] in self.refs: return '(*%s)' % nm
+        if rk == 'VarDecl' and n.get('nonOdrUseReason') == 'constant' and nm in ('digits',) and rd['id'] not in self.locals:
+            return self.numeric_limits_const(nm)
         return nm
+    def numeric_limits_const(self, nm):
+        """std::numeric_limits<T>::digits referenced from a member of a class template instantiation that names
+        std::numeric_limits<T> through a member typedef: computed from T (platform fact: CHAR_BIT == 8, two's complement)"""
+        cls = self.ix.funcs[self.cur_fid][2]
+        ts = set()
+        for k, v in self.ix.typedefs.items():
+            if cls and k.startswith(cls + '::') and v:
+                m = re.match(r'^std::numeric_limits<(.+)>$', v.strip())
+                if m: ts.add(m.group(1).strip())
+        if len(ts) != 1: raise Unsupported('cannot resolve std::numeric_limits<?>::%s in %s' % (nm, self.cur_q))
+        t = ts.pop(); ct = self.ty.name(t)
+        signed = not (t.startswith('unsigned') or t in ('char16_t', 'char32_t', 'bool'))
+        return '((int)(sizeof(%s) * 8 - %d))' % (ct, 1 if signed else 0)
     def e_ImplicitCastExpr(self, n):
         ck = n['castKind']; sub = n['inner'][0]
         if ck in ('LValueToRValue', 'NoOp', 'FunctionToPointerDecay', 'ArrayToPointerDecay', 'BuiltinFnToFnPtr', 'UncheckedDerivedToBase', 'DerivedToBase'):
@@ -946,6 +961,7 @@ class Emitter:
         for l in self.cleanup_to({'function'}): self.out.append(pad + l)
         self.out.append(pad + self.ret_default())
     def vardecl(self, v):
+        self.locals.add(v['id'])
         qt = self.qt(v)
         name = v['name']
         init = [c for c in v.get('inner', []) if c.get('kind') and not c['kind'].endswith('Attr')]
@@ -1148,7 +1164,7 @@ class Emitter:
         cname = self.ix.cname(fid)
         self.cur_q = q; self.cur_c = cname
         self.fspec = self.spec.get(cname, self.spec.get(q, {}))
-        self.refs = set(); self.out = []; self.loopno = 0; self.loops_seen = []
+        self.refs = set(); self.out = []; self.loopno = 0; self.loops_seen = []; self.cur_fid = fid; self.locals = set()
         self.pre = []; self.temps = []; self.scopes = [Scope('function')]; self.cutstack = []
         self.post_call_check = False; self.stmt_level = False; self.exceptions = set()
         try:
@@ -1357,7 +1373,11 @@ class Extraction:
             if v is None: v = em.e(init[0])
             if em.pre: raise Unsupported('global initialiser with side effects ' + q)
             for q2, v2 in em.globals_needed[before:]: add_global(q2, v2)     # dependencies first
-            gl.append('static %s = %s;' % (d, v))
+            if not re.search(r'[\[\*]', d) and not em.ty.cast(qt).replace('const ', '').startswith('struct ') and not str(v).lstrip().startswith('{'):
+                # scalar namespace-scope constant: a macro, so that it stays an integer constant expression in C (case labels, array bounds)
+                gl.append('#define %s ((%s)(%s))' % (cident(q), em.ty.cast(qt).replace('const ', ''), v))
+            else:
+                gl.append('static %s = %s;' % (d, v))
         i = 0
         while i < len(em.globals_needed):
             add_global(*em.globals_needed[i]); i += 1
